@@ -135,6 +135,26 @@ CHECKS = {
         note='Only the state-machine and lattice-geometry core. NOT decided: uniformity of vertices, isotropy of directions, '
              'flavour / nu-nubar frequencies, energies, and the numerical weight formulas -- a change there is invisible to '
              'this check.'),
+    'C08': dict(
+        spec='AntennaResponse.tla', design='4.12',
+        text='AntennaResponse.tla enumerates 24 lattice rotations x arrival directions x polarizations x value types x antenna '
+             'classes; TLC checks that the arrival direction in the antenna frame and the projection of the polarization on '
+             'the antenna axis do not depend on the rotation (Covariant), that the rotated axes stay orthonormal and that the '
+             'antenna-factor division applies exactly to fields. Each case is executed on Antenna, a probe subclass with '
+             'angle- and polarization-dependent gains, DipoleAntenna and AntennaSystem: response factor, rejection of other '
+             'value types, output type, linearity, receive (single and list), dipole sin(theta) and axis-projection gains.',
+        note='Unit frequency response so that values are exact; linearity through a non-trivial frequency response is decided '
+             'by C05 for FIR responses only. Arbitrary (non-lattice) rotations not covered.'),
+    'C16': dict(
+        spec='IceDispatch.tla', design='4.10',
+        text='IceDispatch.tla specifies the region table (closed valid range, outside indices), the layer lookup of stacks '
+             '(upper bound inclusive, lowest bound owned by the lowest layer) and the scalar/row/column/matrix shape table; '
+             'TLC checks totality and uniqueness on a depth lattice containing every bound and both neighbours. All cases are '
+             'evaluated on AntarcticIce, ArasimIce, GreenlandIce, UniformIce (sentinel outside indices) and LayeredIce: '
+             'region, scalar/array agreement, contains, layer_at_depth, attenuation shapes and entry-wise agreement with '
+             'scalar evaluation, positivity and finiteness.',
+        note='Only the dispatch structure. NOT decided: monotonicity of n(z), depth_with_index as inverse, gradient as '
+             'derivative, numerical values of attenuation lengths.'),
 }
 
 NOT_APPLICABLE = {
